@@ -108,7 +108,7 @@ CLAIMED = {
         "RFC oracle over the table's preimages judge the implementation's answers directly.",
    note="Trusted: Lean kernel; harness hx_cal.c; TZif parsing (__conv_zif) and the tzob interning/MFU cache are not "
         "modelled (exercised only); glibc as oracle; occurrence-level correction in refill() belongs to C01/C16's harness. "
-        "Known: D147 (64th zone), D190 (behind 2037).",
+        "Instants of 2038..2099 are converted too and judged in zones whose last recorded offset still holds (offs_beyond_table: behind the table the offset stays, no wrap - repair D207). Known: D147 (64th zone), D190 (zones whose rules go on behind 2037).",
    technique="Lean 4 proof (induction on the bisection, case analysis over the three candidate stretches) + differential correspondence check against all installed zones",
    design="§5 C07"),
  "C04": dict(
